@@ -47,6 +47,7 @@ class Unit:
         self.trusted_contracts = []
         self.types = []
         self.degraded = []     # verify-contracts that had to be emitted as assumed (extraction failure)
+        self.autostubs = []    # functions of the repo that the verified code calls but that have no contract (new helpers): emitted with an EMPTY contract
 
 
 def _process(unit, path, contracts, mode, out, depth=0):
@@ -115,10 +116,27 @@ def _process(unit, path, contracts, mode, out, depth=0):
             raise X.ExtractError(f'{path}: unknown directive //@{d}')
 
 
-def build(unit_name, contracts, mode='verify'):
+def _emit_autostub(rel, name):
+    """a free function of the repo without a contract, called by verified code: external_body, NO requires / ensures (its result
+    and its effect on &mut arguments are unknown to the callers)"""
+    fn = X.lookup_fn(REPO, rel, name)
+    if fn.impl_type:
+        raise X.ExtractError('autostub: methods are not supported')
+    return ('// ---- AUTOSTUB %s (%s:%d-%d): no contract exists for this function; callers know nothing about its result\n'
+            '#[verifier::external_body]\n%s\n{ unimplemented!() }') % (name, rel, fn.line_start, fn.line_end, fn.sig_text.rstrip())
+
+
+def build(unit_name, contracts, mode='verify', autostubs=()):
     unit = Unit(unit_name)
     out = []
     _process(unit, unit.template, contracts, mode, out)
+    if autostubs:
+        idx = max(i for i, l in enumerate(out) if l.strip() == 'fn main() {}')
+        gen = []
+        for rel, name in autostubs:
+            gen.extend(_emit_autostub(rel, name).split('\n'))
+            unit.autostubs.append({'file': rel, 'function': name})
+        out[idx:idx] = gen
     # place generated format functions (line numbers of segments after the marker shift)
     if any(l == '//@@FMTFNS@@' for l in out):
         idx = out.index('//@@FMTFNS@@')
@@ -259,3 +277,33 @@ def run_verus(unit, rlimit=None, timeout=900, extra=None, multiple_errors='5'):
         res['frontend_errors'].append({'message': 'verus produced no summary', 'rendered': stderr[-2000:],
                                        'spans': [], 'owner': None, 'owner_kind': None, 'clause': ''})
     return res
+
+
+def build_and_run(unit_name, contracts, mode='verify', **kw):
+    """build + run; a call of a repo function that has no contract (E0425: a NEW helper) gets an empty-contract stub and the unit is
+    re-run, so that the callers' obligations decide (the driver never reports such a unit as passed)"""
+    stubs = []
+    for _ in range(5):
+        u = build(unit_name, contracts, mode, autostubs=tuple(stubs))
+        r = run_verus(u, **kw)
+        new = None
+        for d in r['frontend_errors']:
+            m = re.search(r'cannot find (?:function|value) `(\w+)` in this scope', d['message'])
+            if not m:
+                continue
+            name = m.group(1)
+            files = sorted({s['file'] for s in u.segments if s.get('file')})
+            for rel in files:
+                try:
+                    fn = X.lookup_fn(REPO, rel, name)
+                except X.ExtractError:
+                    continue
+                if not fn.impl_type and (rel, name) not in stubs:
+                    new = (rel, name)
+                    break
+            if new:
+                break
+        if not new:
+            return u, r
+        stubs.append(new)
+    return u, r
